@@ -15,7 +15,7 @@ import shutil
 import stat
 import time
 from collections import defaultdict
-from collections.abc import AsyncIterator
+from collections.abc import AsyncIterator, Iterable
 from copy import copy
 from datetime import datetime
 from email.message import EmailMessage
@@ -1543,13 +1543,17 @@ class Mailbox:
     #
     # Need to better define when we should lock the folder, too.
     #
-    def set_sequences_in_folder(self, seqs: Sequences) -> None:
+    def set_sequences_in_folder(
+        self, seqs: Sequences, gone: Iterable[int] = ()
+    ) -> None:
         """
         Convert the dict of sets to a dict of lists and set the sequences
         in the underlying MH folder.
 
         Keyword Arguments:
         seqs: Sequences --
+        gone: keys of the messages the caller has just removed from the
+              folder.
         """
         # XXX the assertion is while we are testing to make sure we always have
         #     the lock acquired. This routine is synchronous so it does not
@@ -1563,10 +1567,19 @@ class Mailbox:
         # in `unseen`) is not ours to overwrite: keep the entries of every
         # message we neither know nor mention. Our next resync picks them up.
         #
+        # MH gives the next delivered message the highest key + 1, so the
+        # key of a message we have just removed may already name a new one.
+        # What the folder says about such a key is what we wrote for the
+        # old message (it would hand its `Deleted` to the new one) - except
+        # `unseen`, which is what a delivery agent records.
+        #
         ours = set(self.msg_keys).union(*seqs.values())
+        gone = set(gone)
         to_write = {k: set(v) for k, v in seqs.items()}
         for name, keys in self.mailbox.get_sequences().items():
             not_ours = set(keys) - ours
+            if name != "unseen":
+                not_ours -= gone
             if not_ours:
                 to_write.setdefault(name, set()).update(not_ours)
         self.mailbox.set_sequences({k: list(v) for k, v in to_write.items()})
@@ -2195,7 +2208,7 @@ class Mailbox:
         # of the one we just removed.
         #
         async with self.mh_sequences_lock:
-            self.set_sequences_in_folder(self.sequences)
+            self.set_sequences_in_folder(self.sequences, gone=to_delete)
         await self.commit_to_db()
         self.optional_resync = False
 
@@ -3645,10 +3658,11 @@ async def _helper_rename_inbox(inbox: Mailbox, new_name: str) -> None:
     await inbox._dispatch_or_pend_notifications(notifications)
 
     async with inbox.mh_sequences_lock:
+        moved_keys = inbox.msg_keys
         inbox.sequences = defaultdict(set)
         inbox.msg_keys = []
         inbox.num_msgs = 0
         inbox.uids = []
         inbox._rebuild_index_dicts()
-        inbox.set_sequences_in_folder(inbox.sequences)
+        inbox.set_sequences_in_folder(inbox.sequences, gone=moved_keys)
         await inbox.commit_to_db()
